@@ -818,4 +818,55 @@ example : projectFixed [1, 2, 1] = [1/4, 1/2, 1/4] := by
   rw [dirichlet_as_projection [1, 2, 1] (by norm_num) (by norm_num [Gen.equalToleranceSmall])]
   norm_num [dirichletFromGammas]
 
+/-! ## L: justification of fixes/C08-6 (sample log-gammas, subtract the maximum, exponentiate, normalise) -/
+
+/-- **L1** -/
+theorem beta_scale_invariant (x y c : Rat) (hc : c ≠ 0) :
+    betaFromGammas (c * x) (c * y) = betaFromGammas x y := by
+  unfold betaFromGammas
+  rw [← mul_add, mul_div_mul_left x (x + y) hc]
+
+theorem mo_mem_le_sum : ∀ (l : List Rat), (∀ x ∈ l, 0 ≤ x) → ∀ x ∈ l, x ≤ l.sum
+  | [], _, x, hx => by simp at hx
+  | y :: l, h, x, hx => by
+    have hl : ∀ z ∈ l, 0 ≤ z := fun z hz => h z (List.mem_cons_of_mem _ hz)
+    have h0 : 0 ≤ l.sum := List.sum_nonneg hl
+    have hy := h y (List.mem_cons_self ..)
+    rw [List.sum_cons]
+    rcases List.mem_cons.mp hx with rfl | hx
+    · linarith
+    · have := mo_mem_le_sum l hl x hx; linarith
+
+theorem mo_sum_le_length : ∀ (l : List Rat), (∀ x ∈ l, x ≤ 1) → l.sum ≤ (l.length : Rat)
+  | [], _ => by simp
+  | y :: l, h => by
+    have := mo_sum_le_length l (fun z hz => h z (List.mem_cons_of_mem _ hz))
+    have hy := h y (List.mem_cons_self ..)
+    rw [List.sum_cons, List.length_cons]; push_cast; linarith
+
+/-- **L2** after dividing by the largest variate one entry is exactly 1 and all are in [0,1]: the sum is
+    in [1, n], so the normalisation is never 0/0 — whatever underflows -/
+theorem dirichlet_valid_of_max_one (gs : List Rat) (h01 : ∀ g ∈ gs, 0 ≤ g ∧ g ≤ 1) (h1 : (1 : Rat) ∈ gs) :
+    (∀ y ∈ dirichletFromGammas gs, 0 ≤ y) ∧ (dirichletFromGammas gs).sum = 1 ∧ 1 ≤ gs.sum ∧
+      gs.sum ≤ (gs.length : Rat) := by
+  have hs : 1 ≤ gs.sum := mo_mem_le_sum gs (fun g hg => (h01 g hg).1) 1 h1
+  obtain ⟨a, b⟩ := dirichlet_valid_nonneg gs (fun g hg => (h01 g hg).1) (by linarith)
+  exact ⟨a, b, hs, mo_sum_le_length gs (fun g hg => (h01 g hg).2)⟩
+
+/-- **L3** -/
+theorem dirichlet_max_shift (gs : List Rat) (m : Rat) (hm : m ≠ 0) :
+    dirichletFromGammas (gs.map (· / m)) = dirichletFromGammas gs := by
+  have h := dirichlet_scale_invariant gs (1 / m) (one_div_ne_zero hm)
+  rw [← h]
+  congr 1
+  apply List.map_congr_left
+  intro g _
+  ring
+
+/-- test (L2/L3): draws (2, 4, 0) divided by the maximum 4 -/
+example : dirichletFromGammas (([2, 4, 0] : List Rat).map (· / 4)) = [1/3, 2/3, 0] ∧
+    (dirichletFromGammas (([2, 4, 0] : List Rat).map (· / 4))).sum = 1 := by
+  refine ⟨?_, (dirichlet_valid_of_max_one _ (by norm_num) (by norm_num)).2.1⟩
+  rw [dirichlet_max_shift _ 4 (by norm_num)]; norm_num [dirichletFromGammas]
+
 end AITB.Sampling
